@@ -80,6 +80,23 @@ def planted(kind, mode):
         defvjp(f, lambda ans, z: lambda g: g * 2 * (anp.conj(z) if (bad and mode == "rev") else z))
         defjvp(f, lambda g, ans, z: g * 2 * (anp.conj(z) if (bad and mode == "fwd") else z))
         return f, (lambda rng: onp.array([complex(rng.uniform(0.3, 1.2), rng.uniform(0.3, 1.2)) for _ in range(2)])), None
+    if kind in ("second-order-factor", "second-order-sign", "second-order-zero", "ok-second-order"):
+        # cube's own rules are right; the helper primitive their bodies call (3x^2) has a defective rule,
+        # so only the second derivative is wrong: order 1 must accept, order 2 must reject
+        m = {"second-order-factor": 7.0 / 6.0, "second-order-sign": -1.0, "second-order-zero": 0.0, "ok-second-order": 1.0}[kind]
+
+        @primitive
+        def dcube(x):
+            return 3.0 * x * x
+        defvjp(dcube, lambda ans, x: lambda g: g * 6.0 * x * (m if mode == "rev" else 1.0))
+        defjvp(dcube, lambda g, ans, x: g * 6.0 * x * (m if mode == "fwd" else 1.0))
+
+        @primitive
+        def f(x):
+            return x * x * x
+        defvjp(f, lambda ans, x: lambda g: g * dcube(x))
+        defjvp(f, lambda g, ans, x: g * dcube(x))
+        return f, (lambda rng: onp.array([rng.uniform(0.5, 1.2) for _ in range(3)])), None
     raise ValueError(kind)
 
 
@@ -119,7 +136,8 @@ def main():
     # ---- (B) check_grads on correct and planted-defect primitives ----
     trials = cfg["trials"]
     for kind in ("ok-scalar", "ok-matrix", "ok-reduction", "ok-complex", "factor", "sign", "transpose", "entry",
-                 "dropped-reduction", "complex-conj"):
+                 "dropped-reduction", "complex-conj", "ok-second-order", "second-order-factor", "second-order-sign",
+                 "second-order-zero"):
         for mode in ("rev", "fwd"):
             for order in (1, 2):
                 f, point, _ = planted(kind, mode)
@@ -138,12 +156,13 @@ def main():
                         break
                 out["oracle_n"] += trials
                 out["oracle_keys"].append("%s/%s/order%d" % (kind, mode, order))
-                dist("%s:%s" % ("correct" if kind.startswith("ok") else "defect", mode))
-                if kind.startswith("ok") and passes < trials:
+                dist("%s:%s:order%d" % ("correct" if (kind.startswith("ok") or (kind.startswith("second-order") and order == 1)) else "defect", mode, order))
+                correct_here = kind.startswith("ok") or (kind.startswith("second-order") and order == 1)
+                if correct_here and passes < trials:
                     out["oracle_bad"].append({"oracle": "check_grads", "kind": kind, "mode": mode, "order": order,
                                               "what": "a correct rule was rejected in %d of %d runs" % (trials - passes, trials),
                                               "site": {"oracle": "check_grads-accept"}})
-                if (not kind.startswith("ok")) and passes > max(0, trials // 100):
+                if (not correct_here) and passes > max(0, trials // 100):
                     out["oracle_bad"].append({"oracle": "check_grads", "kind": kind, "mode": mode, "order": order,
                                               "what": "a defective %s rule passed in %d of %d runs" % (mode, passes, trials),
                                               "site": {"oracle": "check_grads-reject"}})
